@@ -65,8 +65,9 @@ def decEnc (s : String) : Option (Option EncL) :=
   if s = "-" then some none else
   match s.toList with
   | [a, b, c] =>
-    if (a = '0' ∨ a = '1') ∧ (b = '0' ∨ b = '1') ∧ (c = '0' ∨ c = '1') then
-      some (some { kindExplicit := a = '1', json := b = '1', pattern := c = '1' })
+    if (a = '0' ∨ a = '1') ∧ (b = '0' ∨ b = '1') ∧ ('0' ≤ c ∧ c ≤ '3') then
+      some (some { kindExplicit := a = '1', json := b = '1',
+                   pattern := if c = '0' then none else some (c.toNat - '1'.toNat) })
     else none
   | _ => none
 
@@ -108,27 +109,27 @@ def decPayload (s : String) : Option (Option Value) :=
   | ['Q', 'i'] => some (some (.seq [.int 1]))
   | ['Q', 'r'] => some (some (.seq [.str (c!"info"), .seq []]))
   | ['Q', 'e'] => some (some (.seq []))
+  | ['Q', 'd'] => some (some (.seq [.null, .map [(c!"level", .str (c!"warn"))]]))
+  | ['Q', 'l'] => some (some (.seq [.str (c!"info")]))
   | ['Q', 'f'] => some (some (.seq [.map [(c!"kind", .str (c!"threshold")), (c!"level", .str (c!"info"))]]))
   | 'I' :: r => (decInt (String.ofList r)).map (fun n => some (.int n))
   | 'S' :: r => (decStr (String.ofList r)).map (fun s => some (.str s))
   | _ => none
 
-mutual
-def dropNulls : Value → Value
-  | .seq xs => .seq (dropNullsList xs)
-  | .map kvs => .map (dropNullsEntries kvs)
-  | v => v
-def dropNullsList : List Value → List Value
-  | [] => []
-  | v :: vs => dropNulls v :: dropNullsList vs
-def dropNullsEntries : Entries → Entries
-  | [] => []
-  | (_, .null) :: kvs => dropNullsEntries kvs
-  | (k, v) :: kvs => (k, dropNulls v) :: dropNullsEntries kvs
-end
+def fmtObs (prog : String) (fmt : Format) (doc : Value) (probes : List (Key × Nat)) : String :=
+  renderLossy probes prog (loadFile realEnv fmt doc) ++ " " ++ renderStrict (loadFileStrict realEnv fmt doc)
 
-def observe (prog : String) (ss : Bool) (doc : Value) (probes : List (Key × Nat)) : String :=
-  renderLossy probes prog (loadLossy ss doc) ++ " " ++ renderStrict (loadStrict ss doc)
+/-- add a second entry with the key at the end of the path (class `dupkey`) -/
+def addDup : List Step → Value → Value → Value
+  | [.key k], x, .map kvs => .map (kvs ++ [(k, x)])
+  | .key k :: rest, x, .map kvs =>
+    .map (kvs.map (fun kv => if kv.1 = k then (kv.1, addDup rest x kv.2) else kv))
+  | _, _, v => v
+
+def applyInjection (doc : Value) (i : Injection) : Value :=
+  if i.cls = "-" ∨ i.cls = "ext" then doc
+  else if i.cls = "dupkey" then (match i.payload with | some x => addDup i.path x doc | none => doc)
+  else modifyAt i.path (fun _ => i.payload) doc
 
 def lastKey : List Step → Key
   | [] => []
@@ -146,10 +147,10 @@ def isEnvelope (path : List Step) : Bool :=
   | [.key top, .key _, .key f, .idx _, .key k] => top = c!"appenders" && f = c!"filters" && k = c!"kind"
   | _ => false
 
-/-- class of inputs of a specification failure (for `known_findings.json`) -/
-def signature (cls : String) (path : List Step) (payload : Option Value) (impl : String) : String :=
+def sigOne (cls : String) (path : List Step) (payload : Option Value) (impl : String) : String :=
   if (impl.splitOn "PANIC").length > 1 then
-    if lastKey path = c!"interval" then
+    if lastKey path = c!"refresh_rate" then "C14/refresh-rate-duration-overflow-panics"
+    else if lastKey path = c!"interval" then
       match payload with
       | some (.int 0) => "C14/time-trigger-interval-zero-modulate"
       | _ => "C14/time-trigger-interval-out-of-range"
@@ -159,6 +160,25 @@ def signature (cls : String) (path : List Step) (payload : Option Value) (impl :
     "C14/appender-envelope-error-rejects-document"
   else if (impl.splitOn "DISAGREE").length > 1 then "C14/formats-disagree-" ++ cls
   else "C14/" ++ cls
+
+/-- class of inputs of a specification failure (for `known_findings.json`): that of the single
+injection; with several injections the classes joined (a `seqs` member dominates) -/
+def signature (injs : List Injection) (impl : String) : String :=
+  match injs with
+  | [] => sigOne "-" [] none impl
+  | [i] => sigOne i.cls i.path i.payload impl
+  | _ =>
+    match injs.find? (fun i => i.cls = "seqs") with
+    | some i => sigOne i.cls i.path i.payload impl
+    | none => "C14/multi-" ++ "+".intercalate (injs.map (·.cls))
+
+/-- which part of the observation differs from the (first) prescribed one -/
+def firstDiff (impl want : String) : String :=
+  let a := impl.splitOn " "
+  let b := want.splitOn " "
+  match (a.zip b).find? (fun p => p.1 ≠ p.2) with
+  | some p => (p.1.splitOn "=").headD "?"
+  | none => if a.length = b.length then "-" else "length"
 
 def cfgTags (cfg : LogicalConfig) : List String :=
   (if cfg.root.isNone then ["root-omitted"] else [])
@@ -174,35 +194,67 @@ def cfgTags (cfg : LogicalConfig) : List String :=
   ++ (if cfg.loggers.any (fun l => l.additive = some false) then ["non-additive"] else [])
   ++ (if cfg.loggers.any (fun l => !checkLoggerName l.name) then ["bad-logger-name"] else [])
 
+def trigTag (a : AppL) : List String :=
+  if a.kind ≠ 2 then [] else
+  [match a.trig with | .size _ => "trig-size" | .time _ _ _ => "trig-time" | .onstartup _ => "trig-onstartup",
+   match a.roll with | .delete => "roll-delete" | .window _ _ => "roll-window"]
+
+def granTag : Gran → String
+  | .none => "gran-none"
+  | .doc => "gran-doc"
+  | .appender _ => "gran-appender"
+  | .filter _ _ => "gran-filter"
+
 def handle : Handler := fun cas obs =>
   match cas, obs with
   | [rr, root, loggers, apps, probes, seed, cls, path, payload], [implObs] =>
+    let clss := splitOnChar '+' cls
+    let paths := if clss.length ≤ 1 then [path] else splitOnChar '|' path
+    let payloads := if clss.length ≤ 1 then [payload] else splitOnChar '|' payload
     match decOpt decStr rr, decRoot root, mapM? decLogger (decList ';' loggers),
       mapM? decApp (decList '|' apps), mapM? decProbe (decList ',' probes), decNat seed,
-      mapM? decStep (decList ',' path), decPayload payload with
-    | some refresh, some root, some loggers, some appenders, some probes, some seed, some path,
-      some payload =>
+      mapM? (fun p => mapM? decStep (decList ',' p)) paths, mapM? decPayload payloads with
+    | some refresh, some root, some loggers, some appenders, some probes, some seed, some paths,
+      some payloads =>
+      if clss.length ≠ paths.length ∨ clss.length ≠ payloads.length then badCase "injection arity" else
       let cfg : LogicalConfig := { refresh, root, loggers, appenders }
+      let injs : List Injection :=
+        ((clss.zip paths).zip payloads).filterMap (fun ((c, p), v) =>
+          if c = "-" then none else some { cls := c, path := p, payload := v })
       let base := render cfg
-      let injected := if cls = "-" then base else modifyAt path (fun _ => payload) base
-      let doc := shuffle seed injected
-      let yaml := observe (progOf cls) false doc probes
-      let json := observe (progOf cls) true doc probes
-      let toml := observe (progOf cls) true (dropNulls doc) probes
-      let model := renderFormats yaml json toml
-      let acc := acceptable cfg cls path probes
-      let g := granOf cls path
+      let doc := shuffle seed (injs.foldl applyInjection base)
+      match injs.find? (fun i => i.cls = "ext") with
+      | some i =>
+        let fname := match i.payload with | some (.str s) => s | _ => []
+        let model := renderExt fname (loadFile realEnv .yaml doc)
+        let want := renderExt fname (.ok (buildLossyNames (meaning cfg)))
+        let extTag := match formatOfPath fname with
+          | .ok _ => "ext-known"
+          | .error .unknown => "ext-none"
+          | .error .unsupported => "ext-unsupported"
+        { model, spec := if implObs = want then "ok" else "FAIL:ext;sig=C14/ext",
+          tags := ["inj-ext", extTag] }
+      | none =>
+      let prog := progOf injs
+      let model := renderFormats (fmtObs prog .yaml doc probes) (fmtObs prog .json doc probes)
+        (fmtObs prog .toml doc probes)
+      let acc := acceptable cfg injs (hasBigInt doc) probes
+      let grans := injs.map (fun i => granOf i.cls i.path)
       let r := meaning cfg
       let hasDangling := !(buildLossyNames r).buildErrors.isEmpty
-      let tags := [if cls = "-" then "valid" else "inj-" ++ cls,
-          match g with | .none => "gran-none" | .doc => "gran-doc" | .appender _ => "gran-appender"
-                       | .filter _ _ => "gran-filter"]
+      let tags := (if injs.isEmpty then ["valid"] else injs.map (fun i => "inj-" ++ i.cls))
+        ++ (if injs.length ≥ 2 then ["multi-injection"] else [])
+        ++ (grans.map granTag).eraseDups
         ++ (if hasDangling then ["dangling-or-badname"] else [])
-        ++ cfgTags cfg
-        ++ (if cls = "-" ∧ cfg.appenders.isEmpty ∧ cfg.loggers.isEmpty then ["trivial"] else [])
+        ++ (if !r.errors.isEmpty then ["unbuildable-appender"] else [])
+        ++ (if hasBigInt doc then ["toml-cannot-write"] else [])
+        ++ cfgTags cfg ++ (cfg.appenders.flatMap trigTag).eraseDups
+        ++ (if cfg.appenders.any (fun a => a.kind = 0 ∧ a.flag ≠ some true) then ["console-writes"] else [])
+        ++ (if injs.isEmpty ∧ cfg.appenders.isEmpty ∧ cfg.loggers.isEmpty then ["trivial"] else [])
       { model,
         spec := if acc.contains implObs then "ok"
-          else "FAIL:observation differs from the prescribed one;sig=" ++ signature cls path payload implObs,
+          else "FAIL:" ++ firstDiff implObs (acc.headD "") ++ " differs from the prescribed observation;sig="
+            ++ signature injs implObs,
         tags }
     | _, _, _, _, _, _, _, _ => badCase "decode"
   | _, _ => badCase "arity"
